@@ -83,6 +83,9 @@ DECLARED_CALLABLES = {
 }
 
 
+DECLARED_CALLABLE_POSITIONS = {('_eval_slow_generic', 0): (None, 'fresh'), ('_black_f_white_fprime', 0): (None, 'fresh')}
+
+
 def _canon(av):
     if isinstance(av, tuple):
         return tuple(_canon(a) for a in av)
@@ -927,6 +930,9 @@ class _Walker:
     def local_callable(self, name, c, args, kws, allargs, fresh):
         key = (self.f.name, name)
         decl = DECLARED_CALLABLES.get(key)
+        if decl is None and self.f.name.startswith('_') and name in self.f.value_params():
+            # private functions may rename their parameters: the declared callable is also known by position
+            decl = DECLARED_CALLABLE_POSITIONS.get((self.f.name, self.f.value_params().index(name)))
         if decl is None:
             sites = None
             if name in self.f.params + self.f.kwonly:
